@@ -1373,9 +1373,12 @@ def _lint_line_starting_indent(
             init_seg = cast(TemplateSegment, init_seg)
             # If it's a placeholder initial indent, then modify the placeholder
             # to remove the indent from it.
+            # NOTE: The indent is the last line of the consumed whitespace,
+            # so remove exactly that (and not any of the tag which follows).
+            indent_stop = init_seg.pos_marker.source_slice.stop
             src_fix = SourceFix(
                 "",
-                source_slice=slice(0, len(current_indent) + 1),
+                source_slice=slice(indent_stop - len(current_indent), indent_stop),
                 templated_slice=slice(0, 0),
             )
             fixes = [
